@@ -5,10 +5,14 @@ From Coq Require Import Lia.
 (* shape invariant wrapResponseBody relies on: a transport.go gzipReader always sits directly
    on a bodyEOFSignal *)
 Definition gz_shape (b : body) : Prop :=
-  forall i, b = Some (Wrap TGzipH1 i) -> exists x, i = Some (Wrap TEofSignal x).
+  (forall i, b = Some (Wrap TGzipH1 i) -> exists x, i = Some (Wrap TEofSignal x)) /\
+  (forall i, b = Some (Wrap TEndChecked i) -> exists e x, i = Some (Wrap (TCompress e) x)).
+
+Lemma mk_dec_sound t under : sound_layer under = true -> sound_layer (mk_dec t under) = true.
+Proof. destruct t; cbn; auto. Qed.
 
 Lemma on_top_sound a under gz : sound_layer under = true -> sound (on_top a under gz) = true.
-Proof. destruct a; cbn; auto. Qed.
+Proof. destruct a; cbn [on_top sound]; auto using mk_dec_sound. Qed.
 
 Lemma transport_body_sound st c ce : sound (transport_body st c ce) = true.
 Proof.
@@ -18,31 +22,41 @@ Proof.
   - apply on_top_sound; reflexivity.
 Qed.
 
+Lemma mk_dec_shape t under :
+  (t = TGzipH1 -> exists x, under = Wrap TEofSignal x) -> t <> TEndChecked ->
+  gz_shape (Some (mk_dec t under)).
+Proof.
+  intros Hg Hn. split; intros i H; destruct t; cbn [mk_dec] in H; inversion H; subst; eauto; try congruence.
+  destruct (Hg eq_refl) as [x ->]. eauto.
+Qed.
+
 Lemma on_top_shape a under gz :
-  (gz = TGzipH1 -> exists x, under = Wrap TEofSignal x) ->
-  (forall i, under <> Wrap TGzipH1 i) ->
+  (gz = TGzipH1 -> exists x, under = Wrap TEofSignal x) -> gz <> TEndChecked ->
+  (forall i, under <> Wrap TGzipH1 i) -> (forall i, under <> Wrap TEndChecked i) ->
   gz_shape (on_top a under gz).
 Proof.
-  intros Hg Hu i. destruct a; cbn [on_top]; intros H; inversion H; subst.
-  - destruct (Hg eq_refl) as [x ->]. eauto.
-  - exfalso. eapply Hu; eauto.
+  intros Hg Hn Hu Hv. destruct a; cbn [on_top].
+  - now apply mk_dec_shape.
+  - apply mk_dec_shape; [discriminate|discriminate].
+  - split; intros i H; inversion H; subst; exfalso; [eapply Hu|eapply Hv]; eauto.
 Qed.
 
 Lemma transport_body_shape st c ce : gz_shape (transport_body st c ce).
 Proof.
   destruct st; cbn [transport_body].
   - destruct (negb (t_head c) && negb (t_wire_cl c =? 0)%Z).
-    + apply on_top_shape; [eauto|discriminate].
-    + intros i H; discriminate.
-  - apply on_top_shape; [discriminate|discriminate].
-  - apply on_top_shape; [discriminate|discriminate].
+    + apply on_top_shape; [eauto|discriminate|discriminate|discriminate].
+    + split; intros i H; discriminate.
+  - apply on_top_shape; discriminate.
+  - apply on_top_shape; discriminate.
 Qed.
 
 Lemma wrap_cb_sound b : sound b = true -> gz_shape b -> sound (wrap_cb b) = true.
 Proof.
-  intros Hs Hg. destruct b as [[|t i]|]; cbn in *; try assumption; try discriminate.
+  intros Hs [Hg He]. destruct b as [[|t i]|]; cbn in *; try assumption; try discriminate.
   destruct t; cbn in *; try assumption.
   - destruct (Hg i eq_refl) as [x ->]. cbn in *. assumption.
+  - destruct (He i eq_refl) as (e & x & ->). cbn in *. assumption.
 Qed.
 
 Lemma decode_stage_sound dd b : sound b = true -> sound (decode_stage dd b) = true.
@@ -90,12 +104,15 @@ Proof. intros H. unfold core. rewrite flatten_wrap. cbn. now rewrite H. Qed.
 
 Lemma wrap_cb_core b : gz_shape b -> core (wrap_cb b) = core b.
 Proof.
-  intros Hg. destruct b as [[|t i]|]; try (cbn [wrap_cb]; now rewrite core_wrap_added).
+  intros [Hg He]. destruct b as [[|t i]|]; try (cbn [wrap_cb]; now rewrite core_wrap_added).
   destruct t; try (cbn [wrap_cb]; now rewrite core_wrap_added).
   - cbn [wrap_cb]. destruct (Hg i eq_refl) as [x ->].
     rewrite !(core_wrap_kept TGzipH1), !(core_wrap_kept TEofSignal) by reflexivity.
     now rewrite core_wrap_added.
   - cbn [wrap_cb]. rewrite !(core_wrap_kept (TCompress e)) by reflexivity.
+    now rewrite core_wrap_added.
+  - destruct (He i eq_refl) as (e & x & ->). cbn [wrap_cb].
+    rewrite !(core_wrap_kept TEndChecked), !(core_wrap_kept (TCompress e)) by reflexivity.
     now rewrite core_wrap_added.
 Qed.
 
@@ -127,10 +144,13 @@ Proof.
               is_added gz = false ->
               filter (fun t => negb (is_added t)) (fst (flatten (on_top a under gz))) = fst (flatten (on_top a under gz))).
   { intros a under gz Hu Hgz. apply filter_all_id. intros t Ht.
-    destruct a; cbn [on_top] in Ht.
-    - rewrite flatten_wrap in Ht. cbn in Ht. destruct Ht as [<-|Ht]; [now rewrite Hgz|]. now rewrite Hu.
-    - rewrite flatten_wrap in Ht. cbn in Ht. destruct Ht as [<-|Ht]; [reflexivity|]. now rewrite Hu.
-    - cbn in Ht. now rewrite Hu. }
+    assert (Hm : forall g, In t (fst (flatten_layer (mk_dec g under))) ->
+                 t = g \/ t = TEndChecked \/ In t (fst (flatten_layer under))).
+    { intros g. destruct g; cbn [mk_dec flatten_layer]; destruct (flatten_layer under) as [ts n]; cbn; intuition. }
+    destruct a; cbn [on_top flatten] in Ht.
+    - apply Hm in Ht as [->|[->|Ht]]; [now rewrite Hgz|reflexivity|now rewrite Hu].
+    - apply Hm in Ht as [->|[->|Ht]]; [reflexivity|reflexivity|now rewrite Hu].
+    - now rewrite Hu. }
   destruct st; cbn [transport_body].
   - destruct (negb (t_head c) && negb (t_wire_cl c =? 0)%Z).
     + rewrite H; [now destruct (flatten _)| |reflexivity].
@@ -153,12 +173,14 @@ Qed.
 Lemma wrap_cb_tags b t : gz_shape b ->
   In t (fst (flatten (wrap_cb b))) -> t = TCallback \/ In t (fst (flatten b)).
 Proof.
-  intros Hg. destruct b as [[|t0 i]|].
+  intros [Hg He]. destruct b as [[|t0 i]|].
   - cbn. intros [H|[]]; auto.
   - destruct t0.
     2:{ destruct (Hg i eq_refl) as [x ->]. cbn [wrap_cb]. rewrite !flatten_wrap. cbn [fst In].
         intros [H|[H|[H|H]]]; auto. }
     2:{ cbn [wrap_cb]. rewrite !flatten_wrap. cbn [fst In]. intros [H|[H|H]]; auto. }
+    2:{ destruct (He i eq_refl) as (e & x & ->). cbn [wrap_cb]. rewrite !flatten_wrap. cbn [fst In].
+        intros [H|[H|[H|H]]]; auto. }
     all: cbn [wrap_cb]; rewrite (flatten_wrap TCallback); cbn [fst In]; intros [H|H]; auto.
   - cbn. intros [H|[]]; auto.
 Qed.
@@ -222,3 +244,62 @@ Proof. vm_compute. repeat split. Qed.
 (* a non-empty guard header value switches the decoder stage off *)
 Theorem decode_off_when_guarded d g ct o : g <> [] -> decode_decision d g ct o = DNone.
 Proof. intros H. unfold decode_decision. destruct g; [contradiction|]. cbn. now rewrite Bool.orb_true_r. Qed.
+
+(* ---------- the first Read (endChecked puts a trackedBody under its decoder) ---------- *)
+
+Lemma layer_ind2 (P : layer -> Prop) :
+  P Base -> (forall t, P (Wrap t None)) -> (forall t l, P l -> P (Wrap t (Some l))) -> forall l, P l.
+Proof.
+  intros HB HN HS. fix IH 1. intros l. destruct l as [|t [l'|]]; [exact HB| |exact (HN t)].
+  apply HS. apply IH.
+Qed.
+
+Lemma first_read_layer_sound : forall l, sound_layer l = true -> sound_layer (first_read_layer l) = true.
+Proof.
+  induction l as [|t|t l IH] using layer_ind2; [reflexivity|destruct t; cbn; auto|].
+  intros H. cbn [sound_layer] in H.
+  destruct t; try (cbn [first_read_layer sound_layer]; exact (IH H)).
+  destruct l as [|t' [l''|]].
+  - reflexivity.
+  - destruct t'; cbn [first_read_layer sound_layer]; exact (IH H).
+  - cbn in H. discriminate.
+Qed.
+
+(* reading does not make a reader nil: the stack is sound before and after the first Read *)
+Theorem stages_never_nil_reading st c p g ce ct o :
+  sound (after_first_read (pipeline st c p g ce ct o)) = true.
+Proof.
+  pose proof (stages_never_nil st c p g ce ct o) as H.
+  destruct (pipeline st c p g ce ct o) as [l|]; [|discriminate]. cbn in *. now apply first_read_layer_sound.
+Qed.
+
+Definition not_tracked (t : ltag) : bool := match t with TTracked => false | _ => true end.
+
+Lemma flatten_layer_wrap t l :
+  flatten_layer (Wrap t (Some l)) = (t :: fst (flatten_layer l), snd (flatten_layer l)).
+Proof. cbn. now destruct (flatten_layer l). Qed.
+
+Lemma first_read_layer_tags : forall l,
+  filter not_tracked (fst (flatten_layer (first_read_layer l))) = filter not_tracked (fst (flatten_layer l)) /\
+  snd (flatten_layer (first_read_layer l)) = snd (flatten_layer l).
+Proof.
+  induction l as [|t|t l [IH1 IH2]] using layer_ind2; [split; reflexivity|destruct t; split; reflexivity|].
+  assert (Hgen : first_read_layer (Wrap t (Some l)) = Wrap t (Some (first_read_layer l)) ->
+     filter not_tracked (fst (flatten_layer (first_read_layer (Wrap t (Some l))))) =
+       filter not_tracked (fst (flatten_layer (Wrap t (Some l)))) /\
+     snd (flatten_layer (first_read_layer (Wrap t (Some l)))) = snd (flatten_layer (Wrap t (Some l)))).
+  { intros E. rewrite E, !flatten_layer_wrap. cbn [fst snd filter]. rewrite IH1, IH2. split; reflexivity. }
+  destruct t; try (apply Hgen; reflexivity).
+  destruct l as [|t' [l''|]]; try (apply Hgen; reflexivity).
+  - destruct t'; try (apply Hgen; reflexivity).
+    (* endChecked over a decoder: a trackedBody appears under the decoder *)
+    cbn [first_read_layer] in *. rewrite !flatten_layer_wrap in *. cbn [fst snd filter not_tracked] in *.
+    split; [now rewrite IH1|exact IH2].
+  - destruct t'; try (apply Hgen; reflexivity). split; reflexivity.
+Qed.
+
+(* ... and the first Read only adds trackedBody layers: everything else stays, in order *)
+Theorem first_read_only_adds_tracked b :
+  filter not_tracked (fst (flatten (after_first_read b))) = filter not_tracked (fst (flatten b)) /\
+  snd (flatten (after_first_read b)) = snd (flatten b).
+Proof. destruct b as [l|]; [apply first_read_layer_tags|split; reflexivity]. Qed.
